@@ -124,7 +124,11 @@ pub fn write_evidence(
         "wall_s": wall,
         "violations": violations,
     });
-    let _ = std::fs::create_dir_all("/verif/evidence");
-    let path = format!("/verif/evidence/{}.json", check.property);
+    let dir = match std::env::var("VERIF_OUT_DIR") {
+        Ok(d) if !d.is_empty() => format!("{d}/evidence"),
+        _ => "/verif/evidence".to_string(),
+    };
+    let _ = std::fs::create_dir_all(&dir);
+    let path = format!("{dir}/{}.json", check.property);
     let _ = std::fs::write(path, serde_json::to_string_pretty(&ev).unwrap_or_default());
 }
